@@ -363,10 +363,19 @@ let loop_main unfixed =
             if net_ready && take_ready then print_endline "AMBIG"
             else if take_ready then arm TakeRequest
             else if net_ready then begin
-              let batch = take 9 !inbox in
-              let rest = drop 9 !inbox in
+              let batch, rest = l_readb_take !inbox in
               inbox := rest;
-              if List.length batch < 9 && !dropped then arm (NetAbort batch) else arm (Net batch)
+              if List.length batch < 9 && !dropped then arm (NetAbort batch)
+              else if !dropped then begin
+                (* a full batch, then the flush of its replies hits the closed transport *)
+                match stp !l (Net batch) with
+                | Stepped l' when List.length (l_wire l') > List.length (l_wire !l) ->
+                    (match stp !l (NetAbort batch) with
+                     | Failed (l'', _) -> l := l''; reported := 0; Printf.printf "ERROR Deserialization WIRE[]\n%!"
+                     | _ -> print_endline "PANIC")
+                | _ -> arm (Net batch)
+              end
+              else arm (Net batch)
             end
             else Printf.printf "IDLE WIRE[%s]\n%!" (wire_delta ())
           end
